@@ -160,9 +160,13 @@ func (c04) Execute(sc *engine.Scenario) *engine.Result {
 			case "undefined":
 				res.Harness = mm.detail
 				return false
-			case "cycles":
+			case "cycles", "buswrite-cycle":
 				if kind != "dispatch" {
-					continue // instruction lengths are C02's
+					continue // instruction lengths are C02's, access cycles C03's
+				}
+			case "buswrite", "buswrite-missing":
+				if kind != "dispatch" {
+					continue // the effect of ordinary instructions on memory is C01's
 				}
 			case "flags-low", "stuck", "halted":
 				continue
